@@ -427,11 +427,11 @@ func runConcurrent(c Case, choose func(int, []string) int) outcome {
 		ms := byListen[a.listen]
 		if a.err != nil || a.mapping == nil {
 			cause := "no-fault/" + errCode(a.err)
-			if c.ExpirePoint != "" {
-				cause += "/code-expired-in-flight@" + c.ExpirePoint
-			}
 			if o.failedOp != "" {
 				cause = "fault@" + o.failedOp
+			}
+			if c.ExpirePoint != "" {
+				cause += "/code-expired-in-flight@" + c.ExpirePoint
 			}
 			if rollbackFault(cause) {
 				// the failing write was one of the rollback's own writes: what it could not remove is not
